@@ -18,6 +18,8 @@ type RenderOpts struct {
 
 var triviaPool = []string{
 	" ", " ", "  ", "\t", "\n", "\r\n", " \n ", "/**/", "/* c */", " /* ; */ ", "-- c\n", "# c\n", "// c\n", "/* ' */", "/* \" ` */", "--\n", " -- ;'\"`\n ", "/*\n*/", "\n\n", " /* a */ /* b */ ", "\t-- x\n\t", "\f", "\v",
+	// comment bodies made of the characters that open and close comments
+	"/***/", "/* c **/", "/**** x ****/", "/*/*/", "/* /* */", "/*--*/", "/*#*/", "/* * / */", "/*\r*/", "--/*\n", "-- */\n", "#*/\n", "//--#\n", "--\r\n", "/* \\ */", "/* \u00e9 */", "-- \u00e9\n", "/*\n--\n*/", "#\n", "/*;*/",
 }
 
 func identShaped(s string) bool {
@@ -321,7 +323,7 @@ func RelexGuard(text string, s Sentence) bool {
 				return false
 			}
 		case PKW:
-			if t.Kind != reflex.KIdent || t.Quoted || !strings.EqualFold(t.Value, g.Text) {
+			if t.Kind != reflex.KIdent || t.Quoted || !asciiEqualFold(t.Value, g.Text) {
 				return false
 			}
 		case ID:
